@@ -76,6 +76,30 @@ impl Pattern {
         Self::regex_with(pattern, &PatternOpts::default())
     }
 
+    /// Returns true if the regular expression contains a `|` that is not enclosed
+    /// in a group nor in a character class.
+    fn has_top_level_alternation(re: &str) -> bool {
+        let mut depth = 0usize;
+        let mut in_class = false;
+        let mut escape = false;
+        for c in re.chars() {
+            if escape {
+                escape = false;
+                continue;
+            }
+            match c {
+                '\\' => escape = true,
+                '[' if !in_class => in_class = true,
+                ']' if in_class => in_class = false,
+                '(' if !in_class => depth += 1,
+                ')' if !in_class => depth = depth.saturating_sub(1),
+                '|' if !in_class && depth == 0 => return true,
+                _ => {}
+            }
+        }
+        false
+    }
+
     /// Creates `Pattern` instance from raw regular expression. Supports PCRE syntax.
     /// Allows to specify case sensitivity
     pub fn regex_with(pattern: &str, opts: &PatternOpts) -> Result<Pattern, PatternError> {
@@ -88,7 +112,13 @@ impl Pattern {
             }
             pattern = head;
         }
-        let pattern = pattern.to_string();
+        // An alternation at the top level must be enclosed in a group, otherwise the anchors
+        // (and a prepended base directory) would bind to its first / last branch only.
+        let pattern = if Self::has_top_level_alternation(pattern) {
+            format!("(?:{pattern})")
+        } else {
+            pattern.to_string()
+        };
 
         let anchored_regex = "^".to_string() + &pattern + "$";
         let anchored_regex = Regex::new(anchored_regex.as_str(), opts.case_insensitive);
